@@ -55,7 +55,7 @@ SPEC = dict(
     gen_module="Refinery.Gen.Convert",
     custom=custom,
     quick=dict(cases=40, len=40, shards=8, timeout=600),
-    thorough=dict(cases=2400, len=60, shards=16, timeout=2400),
+    thorough=dict(cases=1600, len=60, shards=16, timeout=2400),
     nontrivial=nontrivial,
     rule="cases = generated valid v1 files: config files (TOML or YAML) over the old keys of the conversion table "
          "regenerated from templates/configV2.tmpl (values drawn per field type and filtered through the real v2 "
